@@ -89,6 +89,11 @@ def gen_case(rng, kind):
         if data_rows and rng.random() < 0.3:
             k = rng.randrange(len(data_rows))
             data_rows[k] = data_rows[k][:-1] if rng.random() < 0.5 else data_rows[k] + ["x"]
+    if data_rows and rng.random() < 0.08:
+        # an item that is no text at all (None, a number): the writer refuses the row like any other row it cannot take
+        k = rng.randrange(len(data_rows))
+        if data_rows[k]:
+            data_rows[k][rng.randrange(len(data_rows[k]))] = rng.choice([None, 7])
     return model, header_rows + data_rows
 
 
@@ -238,7 +243,8 @@ def check_case(ctx, model, rows, cid_by_path=False, one_by_one_through_write_row
     # check - the file holds what the stream holds
     file_path = os.path.join(ctx.tmp, "c14_target.txt")
     try:
-        file_writer = cutplace.Writer(gen.load_cid(model), file_path)
+        # (a second writer bound to the SAME Cid object as the first one, which is closed by now: one run after the other)
+        file_writer = cutplace.Writer(cid, file_path)
         for row in rows:
             try:
                 file_writer.write_row(row)
